@@ -338,7 +338,7 @@ class LeanStream:
 def build_models(ctx: Check, tries: int = 3):
     """the driver imports the compiled model (TxV.Model.CoreProto) and the theory bridge (TxV.Core.Bridge)"""
     for k in range(tries):
-        res = run_cmd(["lake", "build", "TxV.Model.CoreProto", "TxV.Core.Bridge"], LEAN, timeout=3000)
+        res = run_cmd(["lake", "build", "TxV.Model.CoreProto", "TxV.Core.Bridge", "TxV.Core.BridgeEagerFold"], LEAN, timeout=3000)
         if res.returncode == 0:
             return
         time.sleep(3)  # another agent may be rebuilding shared modules: transient
@@ -420,7 +420,12 @@ def run_core(ctx: Check, pid: str, n_quick: int = 110, n_thorough: int = 1600):
         for k in range(4):
             try:
                 # theorems deriving the static hypotheses of the Props theorems from the executable `elaborate`
-                extra = ["TxV.Core.BridgeC01"] if pid in ("C01", "C02", "C05", "C07", "C08", "C11") and (LEAN / "TxV/Core/BridgeC01.lean").exists() else []
+                # and (BridgeEval) stating the property conclusions about the executable `evalEager` run bits
+                extra = []
+                if pid in ("C01", "C02", "C05", "C07", "C08", "C11") and (LEAN / "TxV/Core/BridgeC01.lean").exists():
+                    extra.append("TxV.Core.BridgeC01")
+                if pid in ("C01", "C02", "C03", "C04", "C05", "C07", "C08") and (LEAN / "TxV/Core/BridgeEval.lean").exists():
+                    extra.append("TxV.Core.BridgeEval")
                 ctx.proof_stage(extra_modules=extra)
                 break
             except InfraError as e:
